@@ -172,6 +172,10 @@ def cache_sequence(t2: int, t3: int, e2: bool, e3: bool, k1: bool, k3: bool, mut
     if hlib.PARAM.get("quick"):
         hlib.assume(sh == -1 or t1 == 12)          # quick tier: builtin shadowing only on the builtin-calling text
         hlib.assume(t1 != 12 or t2 in (0, 5, 12))
+    else:
+        # thorough tier: the third call revisits one of the earlier texts or one of two others (13 x 4 schedules per first text)
+        hlib.assume(t3 in (t1, t2, (t1 + 1) % 13, (t2 + 5) % 13))
+        hlib.assume(sh == -1 or 12 in (t1, t2, t3))
     steps = [(t1, True if k1 else False, False), (t2, True, True if e2 else False), (t3, True if k3 else False, True if e3 else False)]
     mutate, warm = (True if mutate else False), (True if warm else False)
     with hlib.native():
